@@ -142,6 +142,11 @@ func (w *w1) opVersionSweep(client int, op simrt.Op) {
 		return
 	}
 	keys := resp.(*kmsg.ApiVersionsResponse).ApiKeys
+	if resp.(*kmsg.ApiVersionsResponse).ErrorCode != 0 || len(keys) == 0 {
+		// (a reply whose header shape is wrong for its version can still "decode" - as an empty list)
+		w.sim.Fail("C11", "apiversions-reply-empty", "ApiVersions v%d decoded with a standard codec gives error code %d and %d api keys", av.Version, resp.(*kmsg.ApiVersionsResponse).ErrorCode, len(keys))
+		return
+	}
 	for _, k := range keys {
 		if k.MinVersion < 0 || k.MaxVersion < k.MinVersion {
 			continue // explicitly advertised as unsupported
@@ -173,6 +178,10 @@ func (w *w1) opVersionSweep(client int, op simrt.Op) {
 			}
 			if advertised && (!ok || r == nil) {
 				w.sim.Fail("C11", "no-reply", "%s v%d is advertised but the broker sent no reply", kmsg.NameForKey(k.ApiKey), v)
+				return
+			}
+			if avr, isAV := r.(*kmsg.ApiVersionsResponse); isAV && advertised && (avr.ErrorCode != 0 || len(avr.ApiKeys) != len(keys)) {
+				w.sim.Fail("C11", "apiversions-reply-differs", "ApiVersions v%d decodes to error code %d and %d api keys; v%d listed %d", v, avr.ErrorCode, len(avr.ApiKeys), av.Version, len(keys))
 				return
 			}
 		}
